@@ -34,6 +34,11 @@ impl InputVariant {
         }
     }
 
+    /// The fields of this variant, in declaration order.
+    pub(crate) fn fields(&self) -> impl Iterator<Item = &InputField> {
+        self.data.iter()
+    }
+
     /// Whether this variant is the one a bare word produces: it says `word` and is
     /// not skipped. A skipped variant is never produced, so `skip` wins over `word`.
     pub(crate) fn is_word_variant(&self) -> bool {
